@@ -73,6 +73,30 @@ fn handle(name: &str, a: &[String]) -> String {
         "escaped_word_start" => format!("{}", vh::escaped_word_start(&a[0])),
         "highlight" => jlist(&vh::highlight(&a[0]), |x| format!("[{},{},{}]", x.0, x.1, x.2)),
         "complete_path" => jlist(&vh::complete_path(&a[0], a[1] == "1"), |x| js(x)),
+        "jobs" => {
+            // steps: w:kind:pid:val | L:gid:pid:bg | F:gid:pid,pid | P | S
+            let mut sh = vh::new_shell();
+            let mut out: Vec<String> = Vec::new();
+            for st in a {
+                let f: Vec<&str> = st.split(':').collect();
+                match f[0] {
+                    "w" => vh::push_wait_result(f[1].parse().unwrap(), f[2].parse().unwrap(), f[3].parse().unwrap()),
+                    "L" => vh::insert_job(&mut sh, f[1].parse().unwrap(), f[2].parse().unwrap(), "cmd", f[3] == "1"),
+                    "F" => {
+                        let pids: Vec<i32> = f[2].split(',').map(|x| x.parse().unwrap()).collect();
+                        let (g, st_) = vh::wait_fg_job(&mut sh, f[1].parse().unwrap(), &pids);
+                        out.push(format!("{{\"wait\":[{},{}],\"left\":{}}}", g, st_, vh::pending_wait_results()));
+                    }
+                    "P" => vh::try_wait_bg_jobs(&mut sh),
+                    "S" => {
+                        let t = vh::job_table(&sh);
+                        out.push(format!("{{\"left\":{},\"jobs\":{}}}", vh::pending_wait_results(), jlist(&t, |j| format!("[{},{},{},{},{},{}]", j.0, j.1, jlist(&j.2, |x| x.to_string()), jlist(&j.3, |x| x.to_string()), js(&j.4), j.5))));
+                    }
+                    _ => {}
+                }
+            }
+            format!("[{}]", out.join(","))
+        }
         "cd" => match std::env::set_current_dir(&a[0]) { Ok(_) => "true".to_string(), Err(_) => "false".to_string() },
         "line_to_cmds" => jlist(&vh::line_to_cmds(&a[0]), |x| js(x)),
         "parse_line" => {
